@@ -16,90 +16,108 @@ import KrakenModel.Proof.C34
 namespace KrakenModel.Spec.C34
 open KrakenModel.HttpSend KrakenModel.Proof.C34
 
-/-- Shape of every run (all the theorems below are read off this one): `m ≥ 1` attempts, each
-puts exactly the original request on the wire. -/
-theorem run_shape (cfg : Cfg) (h : cfg.rewinds = true) (script : List Outcome) :
+/-- **C34 (1)** Every attempt — retries and the plain-http fallback attempt of an https request
+alike — puts exactly the original request on the wire (same method, URL, headers, complete body;
+the fallback differs in the scheme only) and no attempt fails inside the client.  For every
+configuration, body class, backoff budget and every sequence of server outcomes. -/
+theorem every_attempt_is_original (cfg : Cfg) (h : cfg.rewinds = true) (script : List Outcome) :
+    ∀ w ∈ (send cfg script).1, w = .sent (original cfg) ∨ w = .sent { original cfg with tls := false } := by
+  exact (sendLoop_general cfg h cfg.bo script [] (by simp)).1
+
+/-- **C34 (2)** Success is only reported with an accepted status, and the attempt it answers (the
+last one) carried the complete original request. -/
+theorem success_is_honest (cfg : Cfg) (h : cfg.rewinds = true) (script : List Outcome) (c : Nat)
+    (hok : (send cfg script).2 = .ok c) :
+    cfg.accepted.contains c = true ∧
+    ∃ w, (send cfg script).1.getLast? = some w ∧
+      (w = .sent (original cfg) ∨ w = .sent { original cfg with tls := false }) := by
+  obtain ⟨hall, hlen, _, o, ho⟩ := sendLoop_general cfg h cfg.bo script [] (by simp)
+  constructor
+  · have hres : (send cfg script).2 = final cfg o := ho
+    rw [hres] at hok
+    cases o with
+    | status c' =>
+      simp only [final] at hok
+      split at hok
+      · rename_i hacc
+        have : c' = c := by simpa using hok
+        subst this; exact hacc
+      · simp at hok
+    | net => simp [final] at hok
+    | netAfter k => simp [final] at hok
+    | refuse => simp [final] at hok
+  · have hne : (send cfg script).1 ≠ [] := by
+      intro he
+      have : (send cfg script).1.length = 0 := by rw [he]; rfl
+      have h1 : 0 + 1 ≤ (send cfg script).1.length := by simpa [send] using hlen
+      omega
+    obtain ⟨w, hw⟩ : ∃ w, (send cfg script).1.getLast? = some w := by
+      cases hl : (send cfg script).1.getLast? with
+      | none => exact absurd (List.getLast?_eq_none_iff.mp hl) hne
+      | some w => exact ⟨w, rfl⟩
+    exact ⟨w, hw, hall w (List.mem_of_getLast? hw)⟩
+
+/-- **C34 (3)** Retrying stops when the backoff is exhausted: at least one attempt, at most
+`bo + 1` loop iterations, i.e. at most `2·(bo + 1)` attempts when every https failure is followed
+by its http fallback attempt, and at most `bo + 1` without the fallback. -/
+theorem attempts_bounded (cfg : Cfg) (h : cfg.rewinds = true) (script : List Outcome) :
+    1 ≤ (send cfg script).1.length ∧ (send cfg script).1.length ≤ 2 * (cfg.bo + 1) := by
+  obtain ⟨_, h1, h2, _⟩ := sendLoop_general cfg h cfg.bo script [] (by simp)
+  exact ⟨by simpa [send] using h1, by simpa [send] using h2⟩
+
+/-- Shape of every run without the fallback (all the theorems below are read off this one):
+`m ≥ 1` attempts, each puts exactly the original request on the wire. -/
+theorem run_shape (cfg : Cfg) (h : cfg.rewinds = true) (hnf : (cfg.req.tls && cfg.fallback) = false)
+    (script : List Outcome) :
     ∃ m, 1 ≤ m ∧ m ≤ cfg.bo + 1 ∧
       (send cfg script).1 = List.replicate m (.sent (original cfg)) ∧
       (send cfg script).2 = final cfg (script.getD (m - 1) .net) ∧
       (∀ i, i + 1 < m → wantsRetry cfg (script.getD i .net) = true) ∧
-      (wantsRetry cfg (script.getD (m - 1) .net) = false ∨ m = cfg.bo + 1 ∨ cfg.kind = .plain) := by
-  obtain ⟨m, h1, h2, h3, h4, h5, h6⟩ := sendLoop_shape cfg h cfg.bo script []
+      (wantsRetry cfg (script.getD (m - 1) .net) = false ∨ m = cfg.bo + 1 ∨
+        (cfg.kind = .plain ∧ cfg.plainReplays = false)) := by
+  obtain ⟨m, h1, h2, h3, h4, h5, h6⟩ := sendLoop_shape cfg h hnf cfg.bo script []
   exact ⟨m, h1, h2, by simpa [send] using h3, h4, h5, h6⟩
 
-/-- **C34 (1)** Every attempt carries the same method, URL, headers and the complete original
-body; no attempt fails inside the client. -/
-theorem every_attempt_is_original (cfg : Cfg) (h : cfg.rewinds = true) (script : List Outcome) :
-    ∀ w ∈ (send cfg script).1, w = .sent (original cfg) := by
-  obtain ⟨m, _, _, hw, _⟩ := run_shape cfg h script
-  rw [hw]
-  intro w hm
-  exact List.eq_of_mem_replicate hm
-
-/-- **C34 (2)** Success is only reported for an attempt that carried the complete original
-request, and only with the accepted status that this very attempt was answered with. -/
-theorem success_is_honest (cfg : Cfg) (h : cfg.rewinds = true) (script : List Outcome) (c : Nat)
-    (hok : (send cfg script).2 = .ok c) :
-    (send cfg script).1.getLast? = some (.sent (original cfg)) ∧ cfg.accepted.contains c = true ∧
-      script.getD ((send cfg script).1.length - 1) .net = .status c := by
-  obtain ⟨m, hm1, _, hw, hr, _⟩ := run_shape cfg h script
-  rw [hw]
-  rw [hr] at hok
-  have key : script.getD (m - 1) .net = .status c ∧ cfg.accepted.contains c = true := by
-    cases ho : script.getD (m - 1) .net with
-    | net => rw [ho] at hok; simp [final] at hok
-    | status c' =>
-      rw [ho] at hok
-      simp only [final] at hok
-      split at hok
-      · rename_i hacc
-        have hc : c' = c := by simpa using hok
-        subst hc
-        exact ⟨rfl, hacc⟩
-      · simp at hok
-  refine ⟨?_, key.2, ?_⟩
-  · cases m with
-    | zero => omega
-    | succ k => simp [List.getLast?_replicate]
-  · simp only [List.length_replicate]
-    exact key.1
-
-/-- **C34 (3)** Retrying stops when the backoff is exhausted: at least one and at most `bo + 1`
-attempts. -/
-theorem attempts_bounded (cfg : Cfg) (h : cfg.rewinds = true) (script : List Outcome) :
-    1 ≤ (send cfg script).1.length ∧ (send cfg script).1.length ≤ cfg.bo + 1 := by
-  obtain ⟨m, h1, h2, hw, _⟩ := run_shape cfg h script
+theorem attempts_bounded_no_fallback (cfg : Cfg) (h : cfg.rewinds = true)
+    (hnf : (cfg.req.tls && cfg.fallback) = false) (script : List Outcome) :
+    (send cfg script).1.length ≤ cfg.bo + 1 := by
+  obtain ⟨m, _, h2, hw, _⟩ := run_shape cfg h hnf script
   rw [hw]; simp; omega
 
 /-- **C34 (4)** Only outcomes that ask for a retry are retried (a transport error, a retryable
 status that is not accepted, an explicit RetryCodes status), and the result is that of the last
-attempt. -/
-theorem only_retryable_outcomes_are_retried (cfg : Cfg) (h : cfg.rewinds = true) (script : List Outcome) :
+attempt.  (Stated for runs without the http fallback, where attempt `i` is answered by script
+entry `i`.) -/
+theorem only_retryable_outcomes_are_retried (cfg : Cfg) (h : cfg.rewinds = true)
+    (hnf : (cfg.req.tls && cfg.fallback) = false) (script : List Outcome) :
     (∀ i, i + 1 < (send cfg script).1.length → wantsRetry cfg (script.getD i .net) = true) ∧
     (send cfg script).2 = final cfg (script.getD ((send cfg script).1.length - 1) .net) := by
-  obtain ⟨m, _, _, hw, hr, hall, _⟩ := run_shape cfg h script
+  obtain ⟨m, _, _, hw, hr, hall, _⟩ := run_shape cfg h hnf script
   rw [hw, hr]; simp only [List.length_replicate]
   exact ⟨hall, trivial⟩
 
 /-- **C34 (5)** The retries really happen: a run ends early only because the last outcome asks
-for no retry or because the body cannot be replayed (a reader without `GetBody`). -/
-theorem retries_until_done (cfg : Cfg) (h : cfg.rewinds = true) (script : List Outcome) :
+for no retry or because the body cannot be replayed (a reader without `GetBody` that the
+implementation does not make replayable). -/
+theorem retries_until_done (cfg : Cfg) (h : cfg.rewinds = true)
+    (hnf : (cfg.req.tls && cfg.fallback) = false) (script : List Outcome) :
     wantsRetry cfg (script.getD ((send cfg script).1.length - 1) .net) = false ∨
-    (send cfg script).1.length = cfg.bo + 1 ∨ cfg.kind = .plain := by
-  obtain ⟨m, _, _, hw, _, _, hstop⟩ := run_shape cfg h script
+    (send cfg script).1.length = cfg.bo + 1 ∨ (cfg.kind = .plain ∧ cfg.plainReplays = false) := by
+  obtain ⟨m, _, _, hw, _, _, hstop⟩ := run_shape cfg h hnf script
   rw [hw]; simpa using hstop
 
-/-- **C34 (6)** A body that cannot be replayed is sent exactly once. -/
+/-- **C34 (6)** A body that cannot be replayed is sent exactly once: no retry and no http fallback
+attempt. -/
 theorem plain_body_single_attempt (cfg : Cfg) (h : cfg.rewinds = true) (hk : cfg.kind = .plain)
-    (script : List Outcome) : (send cfg script).1 = [.sent (original cfg)] := by
-  have hnb : nextBody cfg = none := (nextBody_none cfg h).mpr hk
-  unfold send sendLoop
-  simp only [transmit_initial, hnb]
-  cases cfg.bo <;> simp <;> split <;> rfl
+    (hp : cfg.plainReplays = false) (script : List Outcome) : (send cfg script).1 = [.sent (original cfg)] := by
+  have hnb : nextBody cfg = none := (nextBody_none cfg h).mpr ⟨hk, hp⟩
+  unfold send sendLoop attempt
+  simp only [transmit_initial, origAs_self, outcomeOf, hnb]
+  cases cfg.bo <;> simp <;> (repeat' split) <;> rfl
 
 /-- "Accepted status codes are never retried", full statement. -/
 def accepted_never_retried_target : Prop :=
-  ∀ (cfg : Cfg) (script : List Outcome), cfg.rewinds = true →
+  ∀ (cfg : Cfg) (script : List Outcome), cfg.rewinds = true → (cfg.req.tls && cfg.fallback) = false →
     ∀ i c, i + 1 < (send cfg script).1.length → script.getD i .net = .status c →
       cfg.accepted.contains c = false
 
@@ -108,18 +126,19 @@ RetryCodes clause of the loop does not look at the accepted set. -/
 theorem not_accepted_never_retried : ¬ accepted_never_retried_target := by
   intro h
   have := h { req := { method := "GET", url := "/", headers := [], body := [] }, kind := .none,
-              accepted := [200, 404], extra := [404], bo := 1 } [.status 404, .status 200] rfl 0 404
+              accepted := [200, 404], extra := [404], bo := 1 } [.status 404, .status 200] rfl rfl 0 404
     (by decide) (by decide)
   exact absurd this (by decide)
 
 /-- **C34 (7)** Accepted status codes are never retried, for every configuration in which no
 accepted code is also a RetryCodes code. -/
-theorem accepted_never_retried_partial (cfg : Cfg) (h : cfg.rewinds = true) (script : List Outcome)
+theorem accepted_never_retried_partial (cfg : Cfg) (h : cfg.rewinds = true)
+    (hnf : (cfg.req.tls && cfg.fallback) = false) (script : List Outcome)
     (hdisj : ∀ c, cfg.accepted.contains c = true → cfg.extra.contains c = false) :
     ∀ i c, i + 1 < (send cfg script).1.length → script.getD i .net = .status c →
       cfg.accepted.contains c = false := by
   intro i c hi ho
-  have hw := (only_retryable_outcomes_are_retried cfg h script).1 i hi
+  have hw := (only_retryable_outcomes_are_retried cfg h hnf script).1 i hi
   rw [ho] at hw
   cases hacc : cfg.accepted.contains c with
   | false => rfl
@@ -138,6 +157,26 @@ theorem unrepaired_loop_resends_drained_body :
     (send { req := req, kind := .rewindable, bo := 1, rewinds := false } [.status 503, .status 200]) =
       ([.sent req, .localErr], .netErr) := by
   decide
+
+/-- The https→http fallback as it was before its repair built a new request from the reader the
+https attempt had drained: an in-memory body went out empty (Content-Length 0) and the 200 that
+answered it was reported as success. -/
+theorem unrepaired_fallback_resends_empty_body :
+    let req : Req := { method := "PUT", url := "/x", headers := [], body := [1, 2, 3], tls := true }
+    send { req := req, kind := .rewindable, fallback := true, rewinds := false } [.net, .status 200] =
+      ([.sent req, .sent { req with body := [], tls := false }], .ok 200) := by
+  decide
+
+-- non-vacuity: the repaired fallback, and a body that cannot be replayed gets no fallback attempt
+example : send { req := { method := "PUT", url := "/x", headers := [], body := [1, 2, 3], tls := true },
+                 kind := .rewindable, fallback := true, bo := 1 } [.refuse, .status 503, .netAfter 1, .status 200] =
+    ([.sent { method := "PUT", url := "/x", headers := [], body := [1, 2, 3], tls := true },
+      .sent { method := "PUT", url := "/x", headers := [], body := [1, 2, 3], tls := false },
+      .sent { method := "PUT", url := "/x", headers := [], body := [1, 2, 3], tls := true },
+      .sent { method := "PUT", url := "/x", headers := [], body := [1, 2, 3], tls := false }], .ok 200) := by decide
+example : send { req := { method := "PUT", url := "/x", headers := [], body := [1, 2, 3], tls := true },
+                 kind := .plain, fallback := true, bo := 3 } [.net, .status 200] =
+    ([.sent { method := "PUT", url := "/x", headers := [], body := [1, 2, 3], tls := true }], .netErr) := by decide
 
 -- non-vacuity: runs with several attempts under the repaired loop
 example : (send { req := { method := "POST", url := "/x", headers := [("X-A", "1")], body := [1, 2, 3] },
